@@ -90,11 +90,28 @@ def c18_oracle(c):
     return viol
 
 
+def oversize_in_range(c, fb, a, b):
+    """does a file of [a,b] hold a record that alone exceeds DataFileMax?  (extent = distance to the next record or to
+    the end of the file).  Such a record cannot be placed in any destination file, not even an empty one: known
+    finding F24."""
+    fmax = c["cfg"]["filemax"]
+    for ck, f in fb.items():
+        if not (a <= ck <= b):
+            continue
+        offs = [int(r[0]) for r in (f["recs"] or [])] + [int(f["size"])]
+        if any(y - x > fmax for x, y in zip(offs, offs[1:])):
+            return True
+    return False
+
+
 def c17_oracle(c):
     viol = []
     ops = c["ops"]
+    spill = [False]
 
     def bad(kind, what, idx):
+        if spill[0] and kind in ("touched-outside-range", "touched-head"):
+            kind, what = "gc-oversize-spill", what + " [a record of the range is larger than DataFileMax]"
         viol.append(dict(kind=kind, what=what, case=_brief(c, idx), op_index=idx))
 
     for i, o in enumerate(ops):
@@ -128,6 +145,7 @@ def c17_oracle(c):
         if before is None:
             continue
         fa, fb = files_of(after), files_of(before)
+        spill[0] = oversize_in_range(c, fb, a, b)
         changed = sorted(ck for ck in set(fa) | set(fb) if fa.get(ck) != fb.get(ck))
         # files outside the range that EXISTED before and changed (a fresh file created in the gap between the
         # destination and the range start is the documented "fresh file" destination, not a rewrite)
@@ -142,4 +160,5 @@ def c17_oracle(c):
         for ck in outside:
             if ck in fb and (ck not in fa or [r[:3] for r in fb[ck]["recs"]] != [r[:3] for r in fa[ck]["recs"] if int(r[0]) < fb[ck]["size"]]):
                 bad("gc-prefix-changed", "destination file %d was modified below its old size" % ck, i)
+        spill[0] = False
     return viol
